@@ -140,7 +140,10 @@ def _worker_batch_impl(args):
         agg = dict(runs=0, stats=collections.Counter(), faults=collections.Counter(),
                    probes=collections.Counter(), vtime=0.0, steps=0, sigs=set(), states=set(),
                    viols=[], errors=[], samples=[], other=collections.Counter())
+        t_batch = _clock()
         for idx in indices:
+            if _clock() - t_batch > watchdog * 0.4:
+                break          # pathologically slow runs (each one stopped by its CPU-time limit): leave the rest undone
             seed = run_seed(base_seed, prop, idx)
             tape = Tape(seed=seed)
             prefix = list(history)
